@@ -65,7 +65,10 @@ def resolve(node, env, depth=0, lists=False):
             cenv = benv
             if isinstance(base, ast.Name) and isinstance(benv.get(base.id), ast.ListComp):
                 comp = benv[base.id]
-            if isinstance(comp, ast.ListComp) and len(comp.generators) == 1 and not comp.generators[0].ifs and \
+            if isinstance(comp, ast.Call) and norm(comp.func) in ("tuple", "list", "np.array", "numpy.array") and \
+                    len(comp.args) == 1 and not comp.keywords and isinstance(comp.args[0], (ast.ListComp, ast.GeneratorExp)):
+                comp = comp.args[0]     # tuple(E(v) for v in range(N))[k]: the same element
+            if isinstance(comp, (ast.ListComp, ast.GeneratorExp)) and len(comp.generators) == 1 and not comp.generators[0].ifs and \
                     isinstance(comp.generators[0].target, ast.Name) and isinstance(comp.generators[0].iter, ast.Call) \
                     and norm(comp.generators[0].iter.func) == "range" and len(comp.generators[0].iter.args) == 1 \
                     and all(norm(c.func) in DEEP_PURE or norm(c.func) in LINSPACE
@@ -73,6 +76,18 @@ def resolve(node, env, depth=0, lists=False):
                 # [E(v) for v in range(N)][k]  ->  E(k)   (the list built by a range loop, element k)
                 env2 = dict(cenv)
                 env2[comp.generators[0].target.id] = Thunk(node.slice, env)
+                node, env = comp.elt, env2
+                continue
+            if isinstance(comp, (ast.ListComp, ast.GeneratorExp)) and len(comp.generators) == 1 and \
+                    not comp.generators[0].ifs and isinstance(comp.generators[0].target, ast.Name) and \
+                    isinstance(comp.generators[0].iter, (ast.Name, ast.Attribute, ast.Subscript)) and \
+                    not any(isinstance(c, ast.Call) for c in ast.walk(comp.generators[0].iter)) and \
+                    all(norm(c.func) in DEEP_PURE or norm(c.func) in LINSPACE
+                        for c in ast.walk(comp.elt) if isinstance(c, ast.Call)):
+                # [E(v) for v in seq][k]  ->  E(seq[k])   (element k of an element-wise map)
+                env2 = dict(cenv)
+                pick = ast.Subscript(value=comp.generators[0].iter, slice=node.slice, ctx=ast.Load())
+                env2[comp.generators[0].target.id] = Thunk(ast.fix_missing_locations(ast.copy_location(pick, node)), env)
                 node, env = comp.elt, env2
                 continue
             if isinstance(base, ast.List) or isinstance(base, ast.Tuple):
